@@ -73,6 +73,7 @@ import math
 
 import numpy as np
 
+from vmc import bfs
 from vmc import common, families
 from vmc.numerics import EPS
 from vmc.parallel import run_shards, shard
@@ -1268,7 +1269,7 @@ class HistState:
 
 def _digest_state(st):
     from vmc import bfs
-    return bfs.digest([vars(st.ch)] + [{k: v for k, v in vars(o).items() if k != "_multiUserChannel"}
+    return bfs.digest([bfs.state_of(st.ch)] + [{k: v for k, v in bfs.state_of(o).items() if k != "_multiUserChannel"}
                                         for o in st.solvers()], 9)
 
 
